@@ -1,4 +1,4 @@
-from typing import Any, Callable, Dict, List, Optional, Union
+from typing import Any, Callable, Dict, List, Optional, Set, Union
 
 from tartiflette.resolver.default import (
     default_type_resolver,
@@ -188,6 +188,8 @@ class GraphQLSchema:
         self.subscription_operation_name: str = (
             _DEFAULT_SUBSCRIPTION_OPERATION_NAME
         )
+        # operation types explicitly named by a `schema { ... }` definition
+        self.declared_operation_types: Set[str] = set()
 
         # Type, directive, enum, scalar & input type definitions
         self.type_definitions: Dict[str, "GraphQLType"] = {}
@@ -592,15 +594,15 @@ class GraphQLSchema:
             )
         if (
             self.mutation_operation_name != "Mutation"
-            and self.mutation_operation_name not in self.type_definitions
-        ):
+            or "mutation" in self.declared_operation_types
+        ) and self.mutation_operation_name not in self.type_definitions:
             errors.append(
                 f"Missing Mutation Type < {self.mutation_operation_name} >."
             )
         if (
             self.subscription_operation_name != "Subscription"
-            and self.subscription_operation_name not in self.type_definitions
-        ):
+            or "subscription" in self.declared_operation_types
+        ) and self.subscription_operation_name not in self.type_definitions:
             errors.append(
                 f"Missing Subscription Type < {self.subscription_operation_name} >."
             )
